@@ -4,6 +4,7 @@ TLC (model checking, case export, trace validation) + the build farm that
 regenerates and recompiles every generated package from /repo's working tree +
 known-findings handling + evidence files.  Standard library only.
 """
+import atexit
 import concurrent.futures as cf
 import hashlib
 import json
@@ -101,6 +102,21 @@ def _hash_tree(root, exts=(".go", ".mod", ".sum")):
 _farm = None
 
 
+def _in_use(d):
+    try:
+        names = os.listdir(d)
+    except OSError:
+        return False
+    for n in names:
+        if n.startswith(".pid."):
+            try:
+                os.kill(int(n[5:]), 0)
+                return True
+            except (OSError, ValueError):
+                pass
+    return False
+
+
 class Farm:
     """Everything built from one state of /repo (+ one state of the harness)."""
 
@@ -109,10 +125,13 @@ class Farm:
         self.root = os.path.join(WORK, "farm", self.tid)
         base = os.path.join(WORK, "farm")
         os.makedirs(base, exist_ok=True)
-        for d in os.listdir(base):  # prune what was built from other trees
-            if d != self.tid:
-                shutil.rmtree(os.path.join(base, d), ignore_errors=True)
         os.makedirs(self.root, exist_ok=True)
+        mine = os.path.join(self.root, ".pid.%d" % os.getpid())
+        open(mine, "w").close()
+        atexit.register(lambda: os.path.exists(mine) and os.remove(mine))
+        for d in os.listdir(base):  # prune what was built from other trees - unless a live check is still using it
+            if d != self.tid and not _in_use(os.path.join(base, d)):
+                shutil.rmtree(os.path.join(base, d), ignore_errors=True)
         self.gen = os.path.join(self.root, "parquetgen")
         self._prepare()
 
@@ -245,6 +264,13 @@ def farm():
     return _farm
 
 
+def limit_memory():
+    """backstop for the drivers' own runaway watchdog: a library call that allocates without bound must not take the machine down"""
+    import resource
+    gb = int(os.environ.get("VERIF_DRIVER_AS_GB", "24"))
+    resource.setrlimit(resource.RLIMIT_AS, (gb << 30, gb << 30))
+
+
 def run_driver(build, job, tag, timeout=600, env_extra=None):
     """Runs the compiled driver of one program on a job.  Returns the list of
     events; a crash/timeout of the driver process is reported as a synthetic
@@ -259,9 +285,10 @@ def run_driver(build, job, tag, timeout=600, env_extra=None):
     env.update(env_extra or {})
     died = None
     try:
-        r = subprocess.run([os.path.join(d, "drv"), jp, ep], cwd=d, capture_output=True, text=True, timeout=timeout, env=env)
+        r = subprocess.run([os.path.join(d, "drv"), jp, ep], cwd=d, capture_output=True, text=True, timeout=timeout, env=env,
+                           preexec_fn=limit_memory)
         if r.returncode != 0:
-            died = "exit %d: %s" % (r.returncode, r.stderr[-1500:])
+            died = "exit %d: %s" % (r.returncode, r.stderr if len(r.stderr) < 2400 else r.stderr[:900] + "\n...\n" + r.stderr[-1400:])
     except subprocess.TimeoutExpired:
         died = "timeout after %ds" % timeout
     evs = []
@@ -632,6 +659,24 @@ def _deep(n, leaves):
     return src + "type Rec struct {\n\tID int64\n\tN1 *D1\n}\n"
 
 
+# three nested repeated groups with a non-first leaf at the bottom: the generated reader places values by three list indices
+FIXED["Rep3"] = """package main
+
+type Reading struct {
+	Seq   int64
+	Value *int64
+}
+type Sensor struct {
+	Readings []Reading
+}
+type Rack struct {
+	Sensors []Sensor
+}
+type Rec struct {
+	ID    int64
+	Racks []Rack
+}
+"""
 FIXED["Deep5"] = _deep(4, "V *int32\n\tW string\n\tR []bool")
 FIXED["Deep15"] = _deep(14, "V *int32\n\tW string")
 FIXED["Deep14R"] = _deep(13, "V *int64\n\tR []string")
